@@ -488,7 +488,8 @@ def thm_units(x: "real"):
 
 # ------------------------------------------------------------------ bounded stand-ins (real sklearn trees, real strings)
 @bounded(P, "end-to-end-real-trees", "<= 5 build and <= 4 query points from a fixed pool (poles, date line, duplicates), "
-         "both metrics, both tree classes, ALL permutations injected through np.random.shuffle, radii 1 km .. 20000 km")
+         "both metrics, both tree classes, ALL permutations injected through np.random.shuffle, and an unshuffled index asked four times in a row "
+         "(also with exactly as many query points as it holds), radii 1 km .. 20000 km")
 def bounded_real(rng, tier):
     import itertools
     from unittest import mock
@@ -542,6 +543,25 @@ def bounded_real(rng, tier):
                                                      "perm": list(perm), "return_distance": rd, "got": got, "expect": expect})
                                 elif len(samples) < 3 and expect:
                                     samples.append({"build": B, "query": Qp, "metric": metric, "r": r, "perm": list(perm), "pairs": got})
+                        # an index built WITHOUT shuffling (the tree then sits on the very array _to_metric returned) and a
+                        # history of queries on it: exactly as many points as the index holds (first thing after the build), all query points, and both again
+                        idx0 = GEO.GeoIndex(blat, blon, metric=metric, tree_class=tree_class, shuffle=False)
+                        for step, off, cnt in ((0, 1, nb), (1, 0, len(Qp)), (2, 1, nb), (3, 0, len(Qp))):
+                            evals += 1
+                            distinct.add((nb, start, metric, tree_class, r, "noshuffle", step))
+                            ql, qn = qlat[off:off + cnt], qlon[off:off + cnt]
+                            exp_s = sorted((i, j - off) for (i, j) in expect if off <= j < off + len(ql))
+                            try:
+                                pairs, dist = idx0.query(ql, qn, r, return_distance=True)
+                                got = sorted(zip(pairs[0].tolist(), pairs[1].tolist())) if pairs.size else []
+                                ok = got == exp_s and (not pairs.size or all(
+                                    abs(dd - want[(int(a), int(b) + off)]) <= 1e-6 * max(1.0, want[(int(a), int(b) + off)]) + 1e-9
+                                    for a, b, dd in zip(pairs[0], pairs[1], dist)))
+                            except Exception as exc:
+                                ok, got = False, "exception %r" % (exc,)
+                            if not ok:
+                                failures.append({"build": B, "query": [Qp[off + t] for t in range(len(ql))], "metric": metric, "tree": tree_class, "r": r,
+                                                 "shuffle": False, "query_number_on_this_index": step + 1, "got": got, "expect": exp_s})
     return {"evaluations": evals, "distinct_nontrivial": len(distinct), "failures": failures[:5], "samples": samples}
 
 
